@@ -4,6 +4,9 @@ import json
 props = [json.loads(l) for l in open('/verif/properties.jsonl')]
 # id -> (technique, level text, level note, design ref)
 built = {
+ "C06": ("lock-step reference-model monitor with signatures evaluated by provenance (registered key + digest vs the digest the node rules demand, independent sighash model); two-pass signature generation",
+         "P2PK / P2PKH / CHECKSIGVERIFY / two-check / m-of-n CHECKMULTISIG(VERIFY) spends of generated transactions: OP_CODESEPARATOR at every element position (plain, in an unexecuted IF, in an executed IF), each signature slot correct / other key / other digest / empty / high-S / undefined hash type / non-DER, keys compressed / uncompressed / hybrid / truncated / bad prefix / off curve, every (key, class) assignment for n <= 3, m-of-n up to 4 (7 thorough) plus 20-of-20 and 21 keys, all 2^7 subsets of the signature flags and era on a core set, half of the programs ending in OP_NOT to tell 'false' from 'error'. Verdict and per-step stacks must equal the model. Quick ~30k spends, thorough ~600k. Held on the executions observed.",
+         "Trusts refscript + refsighash (both re-validated against node vectors each run); ECDSA itself is only executed by the library. Not generated (no vector settles them): empty signature with a malformed key under STRICTENC, FORKID-bit signatures without the FORKID flag and without STRICTENC, non-DER signatures without a DER flag, key counts wider than 4 bytes, the signature embedded in the locking script.", "DESIGN.md §3 C06"),
  "C19": ("callback-stream monitor: three debugger variants (recording, scribbling, debug.NewDebugger) vs no debugger; trace-grammar automaton; snapshot-hash continuity; lock-step reference model",
          "Each program runs four times (no debugger / recording / scribbling over every snapshot / default debugger with three attached functions per hook). Verdict and error text must be identical, the recording and scribbling callback streams (kind + snapshot hash) identical, the stream accepted by the lifecycle automaton with exactly one terminal callback matching the result, BeforeStep(k+1) = AfterStep(k), stacks per step equal to the node-rule model, attached functions FIFO. Quick ~40k programs / 3M callbacks. Held on the executions observed.",
          "The live []byte argument of stack callbacks and State.Scripts are outside 'stack data inside a snapshot' and are not scribbled. Grammar derived from the documented lifecycle.", "DESIGN.md §3 C19"),
